@@ -2520,6 +2520,9 @@ func (self *TextServerProtocol) ProcessLockResultCommand(lockCommand *protocol.L
 	if self.closed {
 		return errors.New("Protocol Closed")
 	}
+	if lockCommand.RequestId != self.lockRequestId {
+		return nil
+	}
 	self.lockRequestId[0], self.lockRequestId[1], self.lockRequestId[2], self.lockRequestId[3], self.lockRequestId[4], self.lockRequestId[5], self.lockRequestId[6], self.lockRequestId[7],
 		self.lockRequestId[8], self.lockRequestId[9], self.lockRequestId[10], self.lockRequestId[11], self.lockRequestId[12], self.lockRequestId[13], self.lockRequestId[14], self.lockRequestId[15] =
 		0, 0, 0, 0, 0, 0, 0, 0,
